@@ -33,6 +33,7 @@ type World struct {
 	scratchD    *Decls
 	typeInvs    map[string]*Clause
 	globalInvs  map[string]*Clause
+	rvUnder     types.Type
 	immutable   map[string]bool
 	macros      map[string]string
 	filterNames map[*ssa.Function]string
@@ -203,6 +204,23 @@ func isNamed(t types.Type, pkg, name string) bool {
 	return n.Obj().Pkg().Path() == pkg && n.Obj().Name() == name
 }
 
+// isReflectValueAlias: a named type whose underlying type is reflect.Value's struct.
+func (w *World) isReflectValueAlias(t types.Type) bool {
+	n, ok := t.(*types.Named)
+	if !ok {
+		return false
+	}
+	if _, isStruct := n.Underlying().(*types.Struct); !isStruct {
+		return false
+	}
+	if w.rvUnder == nil {
+		if rv := w.lookupType("reflect.Value"); rv != nil {
+			w.rvUnder = rv.Underlying()
+		}
+	}
+	return w.rvUnder != nil && types.Identical(n.Underlying(), w.rvUnder)
+}
+
 // sortOf maps a Go type to an SMT sort, declaring what is needed.
 func (w *World) sortOf(t types.Type, d *Decls) string {
 	t = types.Unalias(t)
@@ -212,6 +230,10 @@ func (w *World) sortOf(t types.Type, d *Decls) string {
 		return "RV"
 	case isNamed(t, "reflect", "Type"):
 		return SInt
+	case w.isReflectValueAlias(t):
+		// type T reflect.Value (e.g. tags.sliceWrapper): same representation
+		w.declRV(d)
+		return "RV"
 	case isNamed(t, "bytes", "Buffer"):
 		return SStr
 	case isNamed(t, "strings", "Builder"):
